@@ -119,13 +119,6 @@ template, clipping by the regenerated `makeSliceAndPad`, skip on out-of-bound, `
 other); `Model.specAt` is the statement of C14. `simulate1d_spec` is the refinement; order and partition
 independence, the exact paste and the absence of errors are corollaries. -/
 
-theorem slice_values (z0 z1 N a b p0 p1 : Int) (oob : Bool)
-    (h : makeSliceAndPad z0 z1 N = .ok ((a, b), (p0, p1), oob)) :
-    a = max z0 0 ∧ b = min z1 N ∧ p0 = a - z0 ∧ p1 = z1 - b ∧ (oob = false → p0 = 0 ∧ p1 = 0) := by
-  unfold makeSliceAndPad at h
-  simp only [bind, Except.bind, pure, Except.pure, throw, throwThe, MonadExceptOf.throw] at h
-  grind
-
 theorem addAt_length (t : List ℚ) (a : Nat) (f : List ℚ) : (addAt t a f).length = t.length := by
   simp [addAt]
 
@@ -177,7 +170,7 @@ theorem pasteOne_spec (t : List ℚ) (start : Int) (frag : List ℚ) (hn : 1 ≤
     simp
   | ok r =>
     obtain ⟨⟨a, b⟩, ⟨p0, p1⟩, oob⟩ := r
-    obtain ⟨ha, hb, hp0, hp1, hoob⟩ := slice_values _ _ _ _ _ _ _ _ h
+    obtain ⟨ha, hb, hp0, hp1, hoob⟩ := C02.slice_values _ _ _ _ _ _ _ _ h
     have h1 := C02.slice_ok _ _ _ _ _ _ _ _ (by omega) (by omega) h
     have hsrc : (if oob then (frag.take ((frag.length : Int) - p1).toNat).drop p0.toNat else frag)
         = (frag.take ((frag.length : Int) - p1).toNat).drop p0.toNat := by
